@@ -140,6 +140,11 @@ theorem gen_layout_from_size_align (sz al : Nat) :
 
 
 
+theorem validLayout_p2 {sz al : Nat} (h : validLayout sz al = true) : P2 al ∧ sz < USIZE := by
+  simp only [validLayout, Bool.and_eq_true, decide_eq_true_eq] at h
+  obtain ⟨⟨h1, h2⟩, h3⟩ := h
+  refine ⟨⟨h1, ?_⟩, ?_⟩ <;> unfold USIZE <;> omega
+
 /-- two outcomes agree up to the text of a `bad` diagnosis -/
 def Outcome.sim {α : Type} : Outcome α → Outcome α → Prop
   | .bad _, .bad _ => True
